@@ -611,16 +611,22 @@ HWritten ==
     /\ Alive /\ hpc = "writing" /\ Flushed(s2c)
     /\ emu' = Free
     /\ terminal' = IF hmsg.x = "step" /\ hmsg.r \in Runs THEN [terminal EXCEPT ![hmsg.r] = @ + 1] ELSE terminal
-    /\ IF hmsg.x = "server"
-         THEN /\ stdinClosed' = TRUE
-              \* pinned server: the handler stops here; repaired server: it closes stdin once and keeps
-              \* receiving and forwarding until workDone is closed
-              /\ hpc' = IF LateClose THEN "select" ELSE "done"
-         ELSE hpc' = "select" /\ UNCHANGED stdinClosed
-    /\ UNCHANGED hdrain
+    /\ hpc' = IF hmsg.x = "server" THEN "closing" ELSE "select"
+    /\ UNCHANGED <<hdrain, stdinClosed>>
     /\ hmsg' = NoMsg
     /\ UNCHANGED <<cvars, c2s, s2c, outClosed, spc, sbuf, smsg, step, beh, sigg, workq, workClosed, crashed,
                    accepted, srvRet>>
+
+\* after a server-fatal error the handler closes the server's input - a step of its own: between the write of the
+\* error message and this close the client can still put a message on the wire (found by trace validation: a
+\* recorded session had exactly that order).  Pinned server: the handler stops here; repaired server: it closes
+\* stdin once and keeps receiving and forwarding until workDone is closed.
+HCloseStdin ==
+    /\ Alive /\ hpc = "closing"
+    /\ stdinClosed' = TRUE
+    /\ hpc' = IF LateClose THEN "select" ELSE "done"
+    /\ UNCHANGED <<cvars, c2s, s2c, outClosed, spc, sbuf, smsg, step, beh, sigg, workq, workClosed, emu, hmsg, hdrain,
+                   crashed, accepted, terminal, srvRet>>
 
 \* RunATPServer returns: handleClosure done and wg.Wait() passed; the process exits and the OS
 \* closes its output
@@ -640,7 +646,7 @@ ServerNext ==
     \/ SrvFill \/ SrvDecode \/ SrvDecodeErr \/ SrvErrSend \/ SrvHandle \/ SrvRunExit \/ SrvLateClose
     \/ \E r \in Runs : StepFinish(r) \/ StepEmit(r) \/ StepEmitted(r) \/ StepFail(r) \/ StepLock(r)
                        \/ StepWrite(r) \/ StepWritten(r) \/ SigFinish(r)
-    \/ HRecv \/ HClosed \/ HLock \/ HWrite \/ HWritten \/ SrvReturn \/ SrvCrashed
+    \/ HRecv \/ HClosed \/ HLock \/ HWrite \/ HWritten \/ HCloseStdin \/ SrvReturn \/ SrvCrashed
 
 Next == ClientNext \/ ServerNext
 Spec == Init /\ [][Next]_vars
@@ -660,7 +666,7 @@ Fairness ==
     /\ WF_vars(CloseBegin) /\ WF_vars(CloseLock) /\ WF_vars(CloseWrite) /\ WF_vars(CloseWritten) /\ WF_vars(CloseReturn)
     /\ WF_vars(SrvFill) /\ WF_vars(SrvDecode) /\ WF_vars(SrvDecodeErr) /\ WF_vars(SrvErrSend) /\ WF_vars(SrvHandle)
     /\ WF_vars(SrvRunExit) /\ WF_vars(SrvLateClose)
-    /\ WF_vars(HRecv) /\ WF_vars(HClosed) /\ WF_vars(HLock) /\ WF_vars(HWrite) /\ WF_vars(HWritten)
+    /\ WF_vars(HRecv) /\ WF_vars(HClosed) /\ WF_vars(HLock) /\ WF_vars(HWrite) /\ WF_vars(HWritten) /\ WF_vars(HCloseStdin)
     /\ WF_vars(SrvReturn) /\ WF_vars(SrvCrashed)
 FairSpec == Spec /\ Fairness
 
